@@ -102,6 +102,13 @@ def messages(rc):
         rc.ob(f"schedule: {norm(s.node, 100)} in {(norm(lv[0]), norm(lv[1])) if lv else None}")
         if opk != "operation":
             rc.fail(c, s.node, "every message of one calibration must use the same operation", construct="schedule operation")
+        # sweeps from further root cliques continue until the tree IS calibrated: the messages of a sweep are sent under `not _is_converged(operation)`; any
+        # cheaper stopping criterion ("no message changed in this sweep") stops one sweep too early for some clique orders
+        gated = [(t, pol) for t, pol in s.conds if tm.is_(t, "self._is_converged(operation=operation)") is not None]
+        if not any(not pol for t, pol in gated):
+            others = [norm(t, 40) for t, pol in s.conds]
+            rc.fail(c, s.node, f"the calibration sweeps are not gated by the calibration test `_is_converged(operation)` (conditions: {others or 'none'}): the schedule may stop "
+                    "before adjacent cliques agree on their sepsets", construct="schedule gated by calibration test")
         if lv is None or not isinstance(lv[0], ast.Name) or root is None:
             continue
         lvn = lv[0].id
